@@ -112,6 +112,10 @@ pub struct Sc15 {
     pub close_before_drop: bool,
     /// flush after every k-th message (0 = only at the end)
     pub flush_every: u8,
+    /// lazy reader: the reading end is polled only in rounds in which the writer made no progress
+    /// (blocked or gone), so that as much as possible is still queued when the writer is dropped
+    #[serde(default)]
+    pub lazy_reader: bool,
 }
 
 fn mk_client_msg(m: &MsgSpec, now: Instant) -> Option<ClientMessage<Body>> {
@@ -215,6 +219,7 @@ fn drive<S, I, W, R, WE, RE>(
     items: Vec<S>,
     flush_every: u8,
     close_before_drop: bool,
+    lazy_reader: bool,
     byte_progress: &dyn Fn() -> u64,
 ) -> Result<(Vec<I>, bool), String>
 where
@@ -290,7 +295,8 @@ where
             }
         }
         // reader
-        if !eos {
+        let writer_progressed = progress;
+        if !eos && !(lazy_reader && writer_progressed && writer.is_some()) {
             match reader.as_mut().poll_next(&mut cx) {
                 Poll::Ready(Some(Ok(i))) => {
                     out.push(i);
@@ -343,7 +349,7 @@ pub fn check(sc: &Sc15) -> CaseResult {
             ($w:expr, $r:expr) => {{
                 if sc.client_to_server {
                     let items: Vec<ClientMessage<Body>> = msgs.iter().filter_map(|m| mk_client_msg(m, now)).collect();
-                    drive(Some(Box::pin($w)), Box::pin($r), items, sc.flush_every, sc.close_before_drop, &*probe.borrow())
+                    drive(Some(Box::pin($w)), Box::pin($r), items, sc.flush_every, sc.close_before_drop, sc.lazy_reader, &*probe.borrow())
                         .map(|(v, e)| (v.into_iter().map(|m| back_client(m, now)).collect::<Vec<_>>(), e))
                 } else {
                     unreachable!()
@@ -353,7 +359,7 @@ pub fn check(sc: &Sc15) -> CaseResult {
         macro_rules! go_resp {
             ($w:expr, $r:expr) => {{
                 let items: Vec<Response<Body>> = msgs.iter().filter_map(mk_response).collect();
-                drive(Some(Box::pin($w)), Box::pin($r), items, sc.flush_every, sc.close_before_drop, &*probe.borrow())
+                drive(Some(Box::pin($w)), Box::pin($r), items, sc.flush_every, sc.close_before_drop, sc.lazy_reader, &*probe.borrow())
                     .map(|(v, e)| (v.into_iter().map(back_response).collect::<Vec<_>>(), e))
             }};
         }
@@ -551,7 +557,7 @@ impl Prop for C15 {
     fn rule(&self) -> String {
         "Scenario = medium (channel::unbounded, channel::bounded(0-4), serde framed transport with JSON or bincode default options over a byte pipe) + direction + 0-40 protocol messages (Request/Cancel or Response with Ok/Err) \
          with bodies from a recursive serde enum (unit, boundary integers, empty/unicode/64 KiB strings, bytes, options, nesting), ids from {0,1,2^32-1,2^32,2^32+1,u64::MAX,random}, trace/span ids at boundaries, both sampling decisions, every stable io::ErrorKind, \
-         deadlines past/now/future under a frozen virtual clock; generated fragmentation scripts (partial reads, partial writes, Pending results) on both directions; flush cadence; close-then-drop or drop. \
+         deadlines past/now/future under a frozen virtual clock; generated fragmentation scripts (partial reads, partial writes, Pending results) on both directions; flush cadence; close-then-drop or drop; eager or lazy reader (a lazy reader is polled only when the writer is blocked or gone, so the writer is dropped with messages still queued). \
          Oracle = round trip: the reader yields exactly the written sequence field by field (deadline as max(D, now); the 18 portable kinds identical, others Other), never an error, end-of-stream only after the writer finished, and it does come. \
          Plus a fixed differential sub-check: a JSON Cancel without trace_context decodes to the default context. Non-trivial = >=3 messages of >=2 variants with a frame split across reads and a partial write, or an error-kind message on a serde medium; distinct = distinct scenario JSON."
             .into()
@@ -581,8 +587,9 @@ impl Prop for C15 {
             script,
             any::<bool>(),
             0u8..4,
+            any::<bool>(),
         )
-            .prop_map(|(medium, client_to_server, msgs, mut write_script, mut read_script, close_before_drop, flush_every)| {
+            .prop_map(|(medium, client_to_server, msgs, mut write_script, mut read_script, close_before_drop, flush_every, lazy_reader)| {
                 // a script of only Pending would never make progress
                 if !write_script.is_empty() && write_script.iter().all(|x| *x == 0) {
                     write_script.push(3);
@@ -590,7 +597,7 @@ impl Prop for C15 {
                 if !read_script.is_empty() && read_script.iter().all(|x| *x == 0) {
                     read_script.push(3);
                 }
-                Sc15 { medium, client_to_server, msgs, write_script, read_script, close_before_drop, flush_every }
+                Sc15 { medium, client_to_server, msgs, write_script, read_script, close_before_drop, flush_every, lazy_reader }
             })
             .boxed()
     }
